@@ -177,7 +177,11 @@ def check(case):
         x = 2.0 * math.pi * a / lam
         qext = 5.0 / (case['q'] * x ** (-4.0) + x ** 0.2)
         want = qext * math.pi * (a * 1e-6) ** 2 * case['lee_mix']
-        centre_in = (Pl >= wlo * (1 + eps)) & (Pl <= whi * (1 - eps))
+        # a declared bound exactly on a layer pressure is not judged (either side is fine);
+        # an UNSET bound means the whole atmosphere, end layer included
+        lo_ok = (Pl >= wlo) if (top < 0 and not inverted) else (Pl >= wlo * (1 + eps))
+        hi_ok = (Pl <= whi) if (bot < 0 and not inverted) else (Pl <= whi * (1 - eps))
+        centre_in = lo_ok & hi_ok
         if not inverted:
             out.applies('lee-magnitude')
             for l in np.where(centre_in)[0]:
